@@ -46,7 +46,10 @@ def steps_c13(rng, nsteps, nthreads):
         n = len(out)
         if op in ("event", "event_of", "event_root"):
             fields = [{"name": "fb", "val": {"t": "str", "v": "e%dy" % n}}]
-            if rng.random() < 0.3:
+            if rng.random() < 0.25:
+                # a field whose name merely begins with `log` (the formatters skip tracing-log's own `log.*` metadata fields only)
+                fields.append({"name": rng.choice(["login", "log_level"]), "val": {"t": "str", "v": "L%dq" % n}})
+            if len(fields) < 2 and rng.random() < 0.3:      # (the driver's hand-made events carry at most four values)
                 fields.append({"name": "dotted.name", "val": rng.choice([{"t": "u64", "v": "42"}, {"t": "bool", "v": "true"}, {"t": "f64", "v": "1.5"}])})
             e = {"op": "event", "t": t, "lvl": lvl, "tgt": tgt, "pk": {"event": "ctx", "event_of": "of", "event_root": "root"}[op], "p": 0, "fields": fields}
             if op == "event_of":
@@ -190,6 +193,6 @@ def project_write(raw, fmt, opts, step, spanrec=None):
     fields_ok = True
     for f in step.get("fields", []):
         v = f["val"]
-        if f["name"] == "fb" and v["t"] == "str" and step["op"] == "event":
+        if f["name"] in ("fb", "login", "log_level") and v["t"] == "str" and step["op"] == "event":
             fields_ok = fields_ok and (v["v"] in txt)
     return dict(w, level=level, spans=spans, toks=toks, fields_ok=fields_ok)
